@@ -120,6 +120,7 @@ type vConcRun struct {
 	mu    sync.Mutex // own lock: the callback must stay race-free even if the reporter stops serialising it
 	got   []vEv
 	armed atomic.Bool // dawdle once, before recording the next event
+	nev   atomic.Int32
 	// gate (slow watcher) plumbing
 	gateCalls int
 	entered   [2]chan struct{}
@@ -165,7 +166,7 @@ func (r *vConcRun) do(op vEv) {
 	if op.st == 8 {
 		r.rep.ReportOKIfStarting(r.ids[op.inst])
 	} else {
-		r.rep.ReportStatus(r.ids[op.inst], componentstatus.NewEvent(componentstatus.Status(op.st)))
+		r.rep.ReportStatus(r.ids[op.inst], vMkEvent(op.st, int(r.nev.Add(1)), true)) // error statuses carry changing causes
 	}
 }
 
